@@ -249,6 +249,7 @@ type seqCase struct {
 var programs = [][]string{
 	{"D", "A", "I"}, {"D", "I", "A"}, {"A", "D", "I"}, {"A", "I", "D"}, {"I", "D", "A"}, {"I", "A", "D"},
 	{"D", "A"}, {"A", "D"},
+	{"S", "A", "D"}, {"A", "S", "D"}, {"D", "S", "A"}, {"D", "A", "S"},
 }
 
 func genSeq(r *rand.Rand, thorough bool, sameName ...string) seqCase {
@@ -335,6 +336,7 @@ func (s *seqRun) afterStep() {
 // quiet (both requeue on error in reality).
 func (s *seqRun) phase(newRev, oldRev string, prog []string) {
 	x := s.x
+	beforeFlip := x.w.RV()
 	x.setState(oldRev, v1.PackageRevisionInactive)
 	x.setState(newRev, v1.PackageRevisionActive)
 	x.ops = append(x.ops, fmt.Sprintf("package manager: %s -> Inactive, %s -> Active", oldRev, newRev))
@@ -348,6 +350,12 @@ func (s *seqRun) phase(newRev, oldRev string, prog []string) {
 		case "I":
 			x.loseStatus(oldRev)
 			_ = x.reconcile(oldRev)
+		case "S":
+			// the deactivated revision is reconciled from a cache that still shows it Active: whatever it
+			// is about to do as an active revision must founder on the API server's version check
+			if x.real != nil {
+				x.reconcileStale(oldRev, beforeFlip)
+			}
 		}
 		s.afterStep()
 	}
